@@ -130,6 +130,16 @@ def check(case):
     pred = np.asarray(m.predict(Q))
     exp_pred = np.asarray(m.classes_)[(P[:, 1] >= 0.5).astype(int)]
     require(pred.shape == (mq,) and bool(np.all(pred == exp_pred)), "predict:not-classes-at-0.5", "%r vs %r" % (pred.tolist()[:5], exp_pred.tolist()[:5]), facts)
+    if case.get("shared_base", True) and hasattr(m, "estimator"):
+        # the base estimator instance handed to this tree is handed to a second one, trained on the swapped labels (a loop over targets
+        # re-using one LogisticRegression()): this tree's nodes are its own fit's business
+        try:
+            other = _mod.DecisionTreeLogisticRegression(estimator=m.estimator, max_depth=o["max_depth"])
+            other.fit(X, np.where(y == classes[0], classes[1], classes[0]))
+        except Exception:  # noqa: BLE001
+            pass
+        require(np.array_equal(np.asarray(m.predict_proba(Q)), P), "proba:moved-by-another-tree-on-the-same-base-estimator",
+                "after a second tree was trained around the same base estimator instance, this tree answers differently", facts)
     DP = m.decision_path(Q)
     DPd = np.asarray(DP.todense())
     require(DPd.shape == (mq, nn), "decision_path:shape", "%r for n_nodes_=%d" % (DPd.shape, nn), facts)
